@@ -9,8 +9,10 @@
 //!  * MKD$ (`f64_to_bytes`) yields the IEEE-754 binary64 encoding, least significant byte first, and
 //!    CVD (`bytes_to_f64`) is its inverse.
 //! The loops under contract are bounded by the word width (16 / 8 iterations; Vec growth), unwound 18 with
-//! unwinding assertions on: complete.  The f64 encoder normalises with up to 1023 doublings and inserts at
-//! the head of a Vec up to 63 times; the symbolic encoder obligation is an `attempt` harness; the decoder calls `powi` (see the note below).
+//! unwinding assertions on: complete.  Since the repair of F11/F12 the f64 encoder is `f.to_bits().to_le_bytes()`
+//! (loop-free) and the decoder folds the 8 bytes into a u64 (8 iterations, unwound 10) and calls `f64::from_bits`:
+//! both are under contract for ALL 2^64 bit patterns except the NaN patterns (the property statement does not
+//! say what NaN does; Rust does not promise to preserve NaN payloads either).
 
 use crate::Variant;
 
@@ -100,21 +102,71 @@ harness!(bitvec_roundtrip, 18, {
 });
 
 // ---------------------------------------------------------------------------------------------
-// IEEE-754 half: attempts (thorough tier, 10 min cap each)
+// IEEE-754 half: complete over every non-NaN bit pattern (finite doubles of every magnitude, subnormals, +0, -0,
+// +inf, -inf).  Equalities are stated on BITS (`to_bits`, byte arrays), never with the float `==`, so that
+// -0.0 / +0.0 and a lost sign or a lost low bit cannot hide.
 // ---------------------------------------------------------------------------------------------
 
-// NOTE (tool limit, not an attempt): `bytes_to_f64` (CVD) calls `f64::powi` 53 times and Kani 0.68 models
-// `powi` as a nondeterministic value (`2.0_f64.powi(-3) == 0.125` is reported as failing), so every
-// obligation on the decoder would raise a spurious alarm.  The decoder is therefore NOT under contract here;
-// it is listed as not decided.
+/// the bit patterns on which the contract speaks: everything but NaN (exponent field all ones, fraction non-zero)
+fn is_nan_pattern(bits: u64) -> bool {
+    (bits & 0x7ff0_0000_0000_0000) == 0x7ff0_0000_0000_0000 && (bits & 0x000f_ffff_ffff_ffff) != 0
+}
 
-//# harness mkd_mid_range tier=thorough label=complete props=C19 fn=rusty_variant/src/bits.rs::f64_to_bytes timeout=600 attempt=1
-harness!(mkd_mid_range, 66, {
-    let x = vs::f64();
-    vs::assume(x.abs() >= 1.0 && x.abs() < 9223372036854775808.0);
+//# harness mkd_ieee754_all tier=quick label=complete props=C19 fn=rusty_variant/src/bits.rs::f64_to_bytes timeout=400
+harness!(mkd_ieee754_all, 10, {
+    let pattern = vs::u64();
+    vs::assume(!is_nan_pattern(pattern));
+    let x = f64::from_bits(pattern);
     let bytes = f64_to_bytes(x);
-    assert!(bytes == x.to_le_bytes(), "MKD$ is not the IEEE-754 binary64 encoding (least significant byte first)");
+    // sign, 11 exponent bits, 52 fraction bits of the binary64 encoding, least significant byte first
+    assert!(bytes == pattern.to_le_bytes(), "MKD$ is not the IEEE-754 binary64 encoding (least significant byte first)");
+    assert!((bytes[7] & 0x80 != 0) == x.is_sign_negative(), "byte 8 of MKD$ does not carry the sign");
     reach!(x == -1.5);
+    reach!(x == 1.6e20);                                // beyond 2^63 (F11)
+    reach!(x == 1e-310);                                // subnormal (F12)
+    reach!(pattern == 0x8000_0000_0000_0000);           // -0.0
+    reach!(pattern == 1);                               // smallest subnormal
+    reach!(x == f64::MAX);
+    reach!(x == f64::NEG_INFINITY);
+});
+
+//# harness cvd_ieee754_all tier=quick label=complete props=C19 fn=rusty_variant/src/bits.rs::bytes_to_f64 timeout=400
+harness!(cvd_ieee754_all, 10, {
+    let pattern = vs::u64();
+    vs::assume(!is_nan_pattern(pattern));
+    let bytes = pattern.to_le_bytes();
+    let x = bytes_to_f64(&bytes);
+    assert!(x.to_bits() == pattern, "CVD is not the double whose IEEE-754 binary64 encoding the eight bytes are");
+    assert!(!x.is_nan(), "CVD yields NaN for bytes that do not encode a NaN");
+    reach!(x == 2.0);
+    reach!(x == -1.6e20);
+    reach!(x == 1e-310);
+    reach!(pattern == 0x8000_0000_0000_0000 && x == 0.0 && x.is_sign_negative());
+    reach!(x == f64::MIN_POSITIVE);
+    reach!(x == f64::INFINITY);
+});
+
+//# harness mkd_cvd_roundtrip tier=quick label=complete props=C19 fn=rusty_variant/src/bits.rs::bytes_to_f64 timeout=400
+harness!(mkd_cvd_roundtrip, 10, {
+    let x = vs::f64();
+    vs::assume(!x.is_nan());
+    let back = bytes_to_f64(&f64_to_bytes(x));
+    assert!(back.to_bits() == x.to_bits(), "CVD(MKD$(x)) is not x, bit for bit");
+    assert!(back == x, "CVD(MKD$(x)) <> x");
+    reach!(x.abs() >= 9223372036854775808.0 && x.is_finite());   // |x| >= 2^63
+    reach!(x != 0.0 && x.abs() < f64::MIN_POSITIVE);             // subnormal
+    reach!(x == 0.0 && x.is_sign_negative());
+    reach!(x == 0.1);
+});
+
+//# harness cvd_mkd_roundtrip tier=quick label=complete props=C19 fn=rusty_variant/src/bits.rs::f64_to_bytes timeout=400
+harness!(cvd_mkd_roundtrip, 10, {
+    let pattern = vs::u64();
+    vs::assume(!is_nan_pattern(pattern));
+    let bytes = pattern.to_le_bytes();
+    assert!(f64_to_bytes(bytes_to_f64(&bytes)) == bytes, "MKD$(CVD(s)) is not s for eight bytes that do not encode a NaN");
+    reach!(bytes[7] == 0x80 && bytes[0] == 1);
+    reach!(bytes[7] == 0x7f && bytes[6] == 0xef);
 });
 
 // concrete witnesses of the encoder (every loop runs on concrete data)
@@ -132,8 +184,8 @@ harness!(mkd_example_b, 1100, {
     assert!(bytes == x.to_le_bytes(), "MKD$(0.1) differs from the IEEE-754 encoding");
 });
 
-// Known finding F11: for |x| >= 2^63 the encoder's `trunc() as i64` saturates, so MKD$ yields the bytes of
-// (about) 2^63 whatever x is: CVD(MKD$(1.6E+20)) = 9223372036854775000.
+// Finding F11 (repaired; kept as a regression witness): for |x| >= 2^63 the encoder's `trunc() as i64` saturated,
+// so MKD$ yielded the bytes of (about) 2^63 whatever x was: CVD(MKD$(1.6E+20)) = 9223372036854775000.
 //# harness finding_f11_mkd_beyond_2_63 tier=quick label=bounded(1-concrete-double) props=C19 fn=rusty_variant/src/bits.rs::f64_to_bytes expect=finding:F11
 harness!(finding_f11_mkd_beyond_2_63, 1100, {
     let x: f64 = 1.6e20;
@@ -141,8 +193,8 @@ harness!(finding_f11_mkd_beyond_2_63, 1100, {
     assert!(bytes == x.to_le_bytes(), "MKD$(1.6E+20) is not the IEEE-754 encoding of 1.6E+20");
 });
 
-// Known finding F12: doubles below 2^-1023 (subnormals) are flushed to zero by the encoder:
-// CVD(MKD$(1E-310)) = 0.
+// Finding F12 (repaired; kept as a regression witness): doubles below 2^-1023 (subnormals) were flushed to zero
+// by the encoder: CVD(MKD$(1E-310)) = 0.
 //# harness finding_f12_mkd_subnormal tier=quick label=bounded(1-concrete-double) props=C19 fn=rusty_variant/src/bits.rs::f64_to_bytes expect=finding:F12
 harness!(finding_f12_mkd_subnormal, 1100, {
     let x: f64 = 1e-310;
